@@ -67,7 +67,13 @@ def check_case(rep, case, wrap=False):
         loc = tuple(case['loc'])
         for x in b.variables:
             port = next(p for p in case['ports'] if p['name'] == x['port'])
-            if port['t'] != 'path' or port['kind'] in ('glob', 'glob2', 'output'):
+            if port['t'] not in ('path', 'dict') or port['kind'] in ('glob', 'glob2', 'output'):
+                continue
+            if port['t'] == 'dict' and not port['hasp'] and \
+                    (not x['v'] or x['v'][0] not in [c for c, _p in tc.seq(port['sub'])]):
+                # (a child that a dictionary without '_path' does not mention: the
+                #  walk through the process node does not know the rule that reading
+                #  and writing follow - not part of the property)
                 continue
             try:
                 via = eng.state.get_path(loc + ('proc', x['port']) + tuple(x['v']))
